@@ -150,7 +150,7 @@ std::vector<std::string> igris::split_cmdargs(const igris::buffer &str)
     while (true)
     {
         // Skip delimiters
-        while (*ptr == ' ' && ptr != end)
+        while (ptr != end && *ptr == ' ')
             ptr++;
 
         if (ptr == end)
